@@ -352,7 +352,14 @@ def rule_limits(ctx: Ctx, rep: Report) -> None:
     rep.ob(rule, "contexts", "P2WSH" in norm(ac.node) and "TAPSCRIPT" in norm(ac.node), ac.where(), "context is p2wsh or tapscript")
 
 
+def rule_own_fields(ctx: Ctx, rep: Report) -> None:
+    """C15.own_fields: an object hands its own fields to the functions it delegates to (see sigcommon.rule_own_fields_forwarded)."""
+    from rules.sigcommon import rule_own_fields_forwarded
+    rule_own_fields_forwarded(ctx, rep, "C15.own_fields", ('btclib.descriptors.miniscript',), 6)
+
+
 RULES = [
+    ("C15.own_fields", rule_own_fields),
     ("C15.universe", rule_universe),
     ("C15.verify_state", rule_verify_state),
     ("C15.ops_multi", rule_ops_multi),
